@@ -289,9 +289,97 @@ func c18Root(env *core.Env, c *c18Case) core.Verdict {
 	return v
 }
 
+// c18All: the directory walk of --all resolves file names with the same grammar: files whose offset is above 255
+// make the run fail instead of being wrapped onto another offset, files outside the grammar are skipped.
+func c18All(env *core.Env, c *c18Case) core.Verdict {
+	root := emptyRoot(env)
+	defer rmCase(root)
+	tree, rc := c18Tree()
+	// keep the walk short: drop most of the 300 chain files, keep the boundary ones
+	for k := 3; k <= c18Chain; k++ {
+		if k != 7 && k != 44 && k != 255 {
+			delete(tree, fmt.Sprintf("regex-assembly/932100-chain%d.ra", k))
+		}
+	}
+	for _, drop := range c.Args {
+		delete(tree, "regex-assembly/"+drop)
+	}
+	if err := tree.Write(root); err != nil {
+		return core.Incon("cannot write tree: %v", err)
+	}
+	orig, pos := rc.render(nil)
+	over := map[string]string{}
+	for p, content := range tree {
+		name := strings.TrimPrefix(p, "regex-assembly/")
+		if name == p || strings.Contains(name, "/") {
+			continue
+		}
+		if m := c18Grammar.FindStringSubmatch(name); m != nil && m[2] != "" {
+			if v, err := strconv.ParseUint(m[2], 10, 64); err != nil || v > 255 {
+				over[name] = strings.TrimSpace(content)
+			}
+		}
+	}
+	v := core.Verdict{Status: core.Held, Nontrivial: true, Counts: map[string]int{"files_over_255": len(over)}}
+	for _, cmd := range []string{"update", "compare"} {
+		r := cli(env, root, nil, "regex", cmd, "--all")
+		if r.Class() == sut.ClassFault || r.Class() == sut.ClassTimeout {
+			return core.Viol("crash", "%s --all crashed: %s", cmd, describe(r))
+		}
+		got, _ := sut.Read(root, rulesPath)
+		if len(over) > 0 && r.Exit == 0 {
+			return core.Viol("all-accepts-offset-over-255", "%s --all exits 0 although regex-assembly contains %v (offsets above 255 must be rejected, not wrapped)", cmd, sortedKeys(over))
+		}
+		gl, ol := strings.Split(got, "\n"), strings.Split(orig, "\n")
+		if len(gl) != len(ol) {
+			return core.Viol("all-damages-file", "%s --all changed the number of lines", cmd)
+		}
+		line2key := map[int]string{}
+		for k, l := range pos {
+			line2key[l] = k
+		}
+		for i := range gl {
+			if gl[i] == ol[i] {
+				continue
+			}
+			if cmd == "compare" {
+				return core.Viol("compare-writes", "compare --all changed the rules file")
+			}
+			op, _ := operandOf(gl[i])
+			for name, token := range over {
+				if op == token {
+					return core.Viol("all-wraps-offset", "update --all wrote the content of %s (offset above 255) into %s", name, line2key[i])
+				}
+			}
+			for _, bad := range []string{"five", "seven", "junk", "raa", "rara"} {
+				if op == bad {
+					return core.Viol("all-uses-file-outside-grammar", "update --all wrote the content of a file whose name is outside the grammar (%s) into %s", bad, line2key[i])
+				}
+			}
+			key := line2key[i]
+			if want, ok := tree["regex-assembly/"+key+".ra"]; ok && op != strings.TrimSpace(want) {
+				// files with leading zeros resolve to the same rule; either content is a legitimate writer
+				alt := false
+				for p, content := range tree {
+					if ok2, _, id, k := c18Parse(strings.TrimPrefix(p, "regex-assembly/")); ok2 && ruleKey(id, k) == key && strings.TrimSpace(content) == op {
+						alt = true
+					}
+				}
+				if !alt {
+					return core.Viol("all-resolves-wrongly", "update --all wrote %q into %s, which no assembly file of that rule and offset contains", op, key)
+				}
+			}
+		}
+		_ = os.WriteFile(filepath.Join(root, rulesPath), []byte(orig), 0o644)
+	}
+	return v
+}
+
 func c18Check(env *core.Env, cc core.Case) core.Verdict {
 	c := cc.(*c18Case)
 	switch c.Kind {
+	case "all":
+		return c18All(env, c)
 	case "args":
 		return c18Args(env, c)
 	case "format":
@@ -340,6 +428,12 @@ func c18Cases(env *core.Env, rng *rand.Rand) []core.Case {
 	for i := 0; i < len(fargs); i += 8 {
 		cs = append(cs, &c18Case{Kind: "format", Args: fargs[i:min(i+8, len(fargs))]})
 	}
+	// --all: with all the odd files, without the over-255 ones (must then succeed up to the first other problem), mixtures
+	cs = append(cs, &c18Case{Kind: "all"},
+		&c18Case{Kind: "all", Args: []string{"932100-chain0256.ra"}},
+		&c18Case{Kind: "all", Args: []string{"932100-chain0256.ra", "932100-chain256.ra"}},
+		&c18Case{Kind: "all", Args: []string{"932100-chain0256.ra", "932100-chain65536.ra"}},
+		&c18Case{Kind: "all", Args: []string{"932100-chain0256.ra", "932100-chain256.ra", "932100-chain65536.ra"}})
 	// root resolution
 	n := env.N(150, 3000)
 	for i := 0; i < n; i++ {
@@ -368,7 +462,7 @@ func init() {
 		ID:    "C18",
 		Level: "fault_enumeration",
 		Rule: "(1) grammar table, enumerated: arguments 932100-chainK for every K in 0..300 (every seventh with .ra), offsets at and beyond uint8/uint16/uint32/uint64 (2^64-1, 2^64, 2^64+1, 20 and 23 digits), leading zeros, ids of 5/7 digits, trailing junk, .raa/.ra.ra, blanks, signs, upper case, non-ASCII digits, path-like forms, the empty string (thorough: plus 1500 PRNG arguments built from grammar fragments). The tree holds a rule with a chain of 300, and every assembly file and every chain position carries a distinct token, so the line that `update ARG` changes and the text it writes identify the resolved (file, rule id, offset); rejected arguments must exit non-zero and change nothing; `generate ARG` must equal `generate -` on the same bytes; compare must resolve like update. " +
-			"(2) `format ARG` with rule ids, include names and near misses: exactly the file predicted by the grammar model changes. (3) root resolution: nested roots with distinct content and distinct toolchain.yaml, -d at depth 0..4 below or beside, relative/absolute, non-existent tails, inside regex-assembly, and no -d with various working directories; the printed regex identifies which root and which configuration were used. Non-trivial = every args/format batch and every root case with >= 2 roots.",
+			"(1b) update --all and compare --all on the same tree (with and without the files whose offset is above 255): such files make the run fail and their content never lands on any rule, files outside the grammar are skipped. (2) `format ARG` with rule ids, include names and near misses: exactly the file predicted by the grammar model changes. (3) root resolution: nested roots with distinct content and distinct toolchain.yaml, -d at depth 0..4 below or beside, relative/absolute, non-existent tails, inside regex-assembly, and no -d with various working directories; the printed regex identifies which root and which configuration were used. Non-trivial = every args/format batch and every root case with >= 2 roots.",
 		Cases:         c18Cases,
 		Check:         c18Check,
 		Decode:        decoder[c18Case](),
